@@ -2,6 +2,7 @@
 import itertools
 import numpy as np
 from vlib import gen, dense as D
+from vlib import impl_np as NP
 from vlib.run import corr, do, impl
 from props.C03 import all_maps_1q
 
@@ -144,7 +145,26 @@ def c_obj_history(ctx, args):
     return history.reused_object_history(ctx, kind, n, seed, steps, which, be=be)
 
 
-CHECKS = {'obj_history': c_obj_history, 'compose_corr': c_compose_corr, 'inverse_corr': c_inverse_corr, 'z2inv_corr': c_z2inv_corr, 'group_laws': c_group_laws,
+def c_storage(ctx, args):
+    """a map whose 0/1 string matrix is stored as another integer type or as booleans (a user-built CliffordMap) composes and inverts to the same map as the int64 one"""
+    a, b, dt = args
+    from pyclifford.stabilizer import CliffordMap
+    mk = lambda m, d: CliffordMap(np.array([r[0] for r in m], dtype=d), np.array([r[1] for r in m], dtype=np.int_))
+    A, B = mk(a, np.int64), mk(b, np.int64)
+    want = [NP.oPL(A.compose(B)), NP.oPL(A.inverse()), NP.oPL(A.compose(A.inverse()))]
+    d = {'int32': np.int32, 'int8': np.int8, 'uint8': np.uint8, 'bool': np.bool_}[dt]
+    try:
+        A2, B2 = mk(a, d), mk(b, d)
+        got = [NP.oPL(A2.compose(B2)), NP.oPL(A2.inverse()), NP.oPL(A2.compose(A2.inverse()))]
+    except Exception as e:
+        return {'kind': 'oracle', 'where': 'np:compose / inverse of a map stored as %s raised %s' % (dt, type(e).__name__), 'observed': str(e)[:120], 'expected': 'the same maps as for int64 storage', 'tags': ['storage', dt]}
+    if got != want:
+        k = [i for i in range(3) if got[i] != want[i]][0]
+        return {'kind': 'oracle', 'where': 'np:%s of a map stored as %s differs from the int64 result' % (['compose', 'inverse', 'map . inverse'][k], dt), 'observed': got[k], 'expected': want[k], 'tags': ['storage', dt]}
+    return None
+
+
+CHECKS = {'storage': c_storage, 'obj_history': c_obj_history, 'compose_corr': c_compose_corr, 'inverse_corr': c_inverse_corr, 'z2inv_corr': c_z2inv_corr, 'group_laws': c_group_laws,
           'z2inv_oracle': c_z2inv_oracle, 'map_history': c_map_history}
 
 
@@ -189,6 +209,9 @@ def run(ctx):
         do(ctx, 'inverse_corr', [be, a], nontrivial=(be, 'i', str(a)))
         do(ctx, 'group_laws', [be, a, b, c, gen.rplist(rng, N, 3)])
         ctx.res.count('N%d' % N)
+    for it in range(int(24 * B)):
+        N = rng.randint(2, 4)
+        do(ctx, 'storage', [gen.rmap(rng, ctx.model, N, depth=3 * N), gen.rmap(rng, ctx.model, N), ['bool', 'uint8', 'int8', 'int32'][it % 4]], nontrivial=('st', it))
     # histories on one reused object (lazily cached results must follow in-place updates)
     for it in range(int(40 * B)):
         be = ['np', 'torch'][it % 2]
